@@ -2243,8 +2243,9 @@ def replace_with_filter(source: str) -> str:
     for {{target}} in filter(None, {{iter}}):
         {{body}}
     """
+    root = core.parse(source)
     template = core.compile_template((find_positive, find_negative), expand="body")
-    iterator1 = processing.find_replace(source, template, replace, yield_match=True)
+    iterator1 = processing.find_replace(source, template, replace, root=root, yield_match=True)
 
     find_positive = """
     for {{target}} in {{iter}}:
@@ -2262,15 +2263,23 @@ def replace_with_filter(source: str) -> str:
         {{body}}
     """
     template = core.compile_template((find_positive, find_negative), expand="body")
-    iterator2 = processing.find_replace(source, template, replace, yield_match=True)
+    iterator2 = processing.find_replace(source, template, replace, root=root, yield_match=True)
 
     filter_derivative_template = ast.Call(
         func=core.compile_template(("filter", "filterfalse", "itertools.filterfalse"))
     )
 
     for range_, replacement, template_match in itertools.chain(iterator1, iterator2):
-        if not core.match_template(template_match.iter, filter_derivative_template):
-            yield range_, replacement
+        if core.match_template(template_match.iter, filter_derivative_template):
+            continue
+
+        # After the loop, its variable holds the last element, filtered out or not
+        loop = template_match.root
+        loop_variables = {name.id for name in core.walk(template_match.target, ast.Name)}
+        if not isinstance(loop, ast.For) or _reads_names_outside(root, loop, loop_variables):
+            continue
+
+        yield range_, replacement
 
 
 def _get_contains_args(node: ast.Compare) -> Tuple[str, str, bool]:
